@@ -24,7 +24,7 @@ PROPERTY = "C06"
 LEVEL = "model_checking"
 FANOUT_CHUNK = 1
 RULE = (
-    "programs {create from data frame with centres / with id column, from HDF5, from random generator; load a cache "
+    "programs {create from data frame with centres / with id column / with generated centres, from HDF5, from Parquet, from random generator; load a cache "
     "(metadata recomputed); build_trees binned+unbinned; HistData.from_catalog; autocorrelate; crosscorrelate; result I/O "
     "(CorrFunc HDF5, CorrData text, Configuration YAML write+read)} x world size {2,3|4} x max_workers {None,1,2,size} x "
     "send completion {eager, rendezvous | size-threshold} x collectives {full, minimal synchronisation}; every "
@@ -43,7 +43,7 @@ ASSUMPTIONS = [
     "catalog creation with max_workers=1 raises a documented ValueError on every rank: counted as refusal, not as a failure",
 ]
 
-PROGRAMS = ("create-centres", "create-ids", "create-hdf", "create-random", "load", "trees", "hist", "auto", "cross", "io")
+from vlib.mpi_bodies import PROGRAMS  # noqa: E402
 _HERE = os.path.dirname(os.path.dirname(os.path.abspath(__file__)))
 
 
